@@ -21,6 +21,8 @@
 //	         inserted (real AddBlock) by the nodes that are not left behind
 //	deliver  a node that is behind receives its next block (AddBlock only)
 //	probe    every synced node validates a block that is valid under one set of consensus rules only
+//	reorg    the last block, which only some nodes inserted, is orphaned: the others commit the empty block at that height and
+//	         the holders switch to it with Blockchain.ResetTo + AddBlock (what the fork resolver's applyFork does)
 //
 // Nothing of the node is re-implemented, with one exception that cannot be avoided: the six lines of main.go that derive
 // the configuration from the stored consensus version live in an anonymous function of package main and are repeated in
@@ -68,7 +70,7 @@ import (
 
 // step is one environment choice of a schedule.
 type step struct {
-	K   string        `json:"k"`   // tick | vote | persist | restart | round | deliver | probe | at
+	K   string        `json:"k"`   // tick | vote | persist | restart | round | deliver | probe | reorg | at
 	T   int           `json:"t"`   // tick: the new tick;  at: absolute second (seeded generator only)
 	I   int           `json:"i"`   // vote: voter key
 	B   int           `json:"b"`   // vote: Upgrade bits
@@ -134,7 +136,7 @@ type world struct {
 
 type runStats struct {
 	worlds, blocks, votes, persists, restarts, offers, crafted, forced, refused, upgrades, newgen, delivers, probes, queries, full, lagged int
-	secondUpg, empty                                                                                                                int
+	secondUpg, empty, reorgs                                                                                                        int
 }
 
 func (w *world) now() int64 { return w.w.Clock.Ticks() }
@@ -853,6 +855,63 @@ func (w *world) probe(st step) {
 	w.out.Emit(tr.M{"ev": "Probe", "hid": w.hid, "k": kind, "r": r, "built": true, "msg": "", "msgs": msgs, "now": w.now(), "verd": verd, "sts": w.states()})
 }
 
+// reorg: the last block of the chain was inserted by some nodes only (the others are one block behind); the rest of the
+// network commits ANOTHER block at that height instead - the empty block of a round that timed out for them - and the
+// holders of the orphaned block switch to it the way the fork resolver does: Blockchain.ResetTo(common height), then AddBlock
+// of the fork's blocks.
+func (w *world) reorg(st step) {
+	if len(w.chain) == 0 {
+		return
+	}
+	tip := w.tip()
+	holders, behind := []*node{}, []*node{}
+	for _, nd := range w.nodes {
+		if nd.dead {
+			continue
+		}
+		switch nd.n.Chain.Head.Height() {
+		case tip:
+			holders = append(holders, nd)
+		case tip - 1:
+			behind = append(behind, nd)
+		}
+	}
+	if len(holders) == 0 || len(behind) == 0 {
+		return
+	}
+	orphan := blockRec(sim.Decode(w.chain[len(w.chain)-1]))
+	use(behind[0])
+	alt := behind[0].n.Chain.GenerateEmptyBlock()
+	data := sim.Encode(alt)
+	w.chain[len(w.chain)-1] = data
+	ins := []interface{}{}
+	for _, nd := range behind {
+		r, msg := w.add(nd, data)
+		if r != 1 {
+			nd.dead = true
+		}
+		ins = append(ins, []interface{}{nd.key, r, msg, 0})
+	}
+	for _, nd := range holders {
+		use(nd)
+		r, msg := judge(func() error {
+			if _, err := nd.n.Chain.ResetTo(tip - 1); err != nil {
+				return err
+			}
+			return nil
+		})
+		if r == 1 {
+			r, msg = w.add(nd, data)
+		}
+		if r != 1 {
+			nd.dead = true
+		}
+		ins = append(ins, []interface{}{nd.key, r, msg, 1})
+	}
+	w.stats.reorgs++
+	w.out.Emit(tr.M{"ev": "Reorg", "hid": w.hid, "h": tip, "orphan": orphan, "blk": blockRec(alt), "now": w.now(), "ins": ins, "sts": w.states()})
+}
+
 func (w *world) exec(steps []step) {
 	for _, st := range steps {
 		switch st.K {
@@ -870,6 +929,8 @@ func (w *world) exec(steps []step) {
 			w.deliver(st)
 		case "probe":
 			w.probe(st)
+		case "reorg":
+			w.reorg(st)
 		default:
 			panic("unknown step " + st.K)
 		}
@@ -943,6 +1004,6 @@ func main() {
 		randomWorld(seed, i, *rlen, o, rnd, st)
 	}
 	sim.Cleanup()
-	fmt.Fprintf(os.Stdout, "worlds=%d blocks=%d votes=%d persists=%d restarts=%d offers=%d crafted=%d forced=%d refused=%d upgrades=%d newgen=%d delivers=%d probes=%d queries=%d full=%d lagged=%d empty=%d cases=%d listener=%d\n",
-		st.worlds, st.blocks, st.votes, st.persists, st.restarts, st.offers, st.crafted, st.forced, st.refused, st.upgrades, st.newgen, st.delivers, st.probes, st.queries, st.full, st.lagged, st.empty, ncases, nlisten)
+	fmt.Fprintf(os.Stdout, "worlds=%d blocks=%d votes=%d persists=%d restarts=%d offers=%d crafted=%d forced=%d refused=%d upgrades=%d newgen=%d delivers=%d probes=%d queries=%d full=%d lagged=%d empty=%d cases=%d listener=%d reorgs=%d\n",
+		st.worlds, st.blocks, st.votes, st.persists, st.restarts, st.offers, st.crafted, st.forced, st.refused, st.upgrades, st.newgen, st.delivers, st.probes, st.queries, st.full, st.lagged, st.empty, ncases, nlisten, st.reorgs)
 }
